@@ -180,6 +180,7 @@ Definition chk_sel (codes : list Z) (c : ccase) : verdict :=
 (* C04: membership (41, 42, 54), per-shard counters at observable instants (72), and - when only announce
    operations ran - the totals at quiescence (71, 73) *)
 Definition chk04 (c : ccase) := if has_gc c then chk_sel [41; 42; 54; 72] c else chk_sel [41; 42; 54; 72; 71; 73] c.
+Definition chk01c := chk_sel [41; 42; 54].
 Definition chk05c := chk_sel [54].
 Definition chk17c := chk_sel [71; 72; 73].
 Definition explain04 (c : ccase) := (chk04_all c, linearizable c).
